@@ -12,6 +12,7 @@ import QlibcModel.Tree.FaultSpec
 import QlibcModel.Tree.ByteCmp
 import QlibcModel.Props.C15Seq
 import QlibcModel.Props.C15Map
+import QlibcModel.Props.C15Harr
 
 namespace Qlibc.Props.C15
 open Qlibc Qlibc.Tree Qlibc.Tree.T
@@ -23,12 +24,12 @@ variable {K V : Type} (cmp : K → K → Ordering) (isEmpty : V → Bool)
 theorem put_fault_atomic (hc : CmpOk cmp) (plan : Plan) (s : Tbl K V) (k : K) (v : V) (hi : s.Inv cmp) :
     ∃ s' r n, s.putobjF cmp isEmpty plan k v = .ok (s', r, n) ∧ s'.Inv cmp ∧
       (r = false → s'.abs = s.abs ∧ s'.num = s.num) ∧
-      (r = true → s.putobj cmp isEmpty k v = .ok (s', true)) :=
+      (r = true → s.putobj cmp replaceAlways k v = .ok (s', true)) :=
   Tbl.putobjF_spec cmp isEmpty hc plan s k v hi
 
 /-- with no failing allocation the plan form is the ordinary operation -/
 theorem put_no_fault (s : Tbl K V) (k : K) (v : V) :
-    (s.putobjF cmp isEmpty noFail k v).map (fun r => (r.1, r.2.1)) = s.putobj cmp isEmpty k v :=
+    (s.putobjF cmp isEmpty noFail k v).map (fun r => (r.1, r.2.1)) = s.putobj cmp replaceAlways k v :=
   Tbl.putobjF_noFail cmp isEmpty s k v
 
 /-- a failed insertion restructures at most: whatever the tree, the in-order sequence is kept -/
